@@ -6,6 +6,7 @@ from core import proto
 from .common import case, guarded, ordinal_instance, strict, rand_perm
 
 ID = "C20"
+COVER_FILES = ["properties/distances.py"]
 RULE = ("exhaustive: all ordered pairs of permutations of {1..n} for n <= 5 (quick: n <= 4) for the three distances "
         "(each case evaluates d(p,q) and d(q,p)), all triples of permutations for n <= 4 (quick: n <= 3) for the "
         "triangle inequality of kendall_tau_distance, all pairs of rankings of different length over <= 3 "
